@@ -109,6 +109,10 @@ func main() {
 		pr(f)
 		return
 	}
+	if os.Getenv("LP2P_PROBE") == "scopes" {
+		probeScopes(c)
+		return
+	}
 	if *list != "" {
 		for _, f := range c.Fns {
 			if strings.Contains(fnKey(f), *list) {
